@@ -52,7 +52,7 @@ def run(tier, seed, replay=None):
     from codelimit.common import Scanner
     from codelimit.common.Configuration import Configuration
     chk = Check("C12", tier, seed)
-    model_ok = chk.proof_stage(["Fs/CheckCmd.vo"])
+    model_ok = chk.proof_stage(["Fs/CheckCmd.vo", "Fs/CheckProofs.vo"])
     rng = chk.rng
     cases = []
     tmp = tempfile.mkdtemp(prefix="verif_c12_")
